@@ -432,3 +432,438 @@ Proof.
   intros H Hle. destruct (reserve_from_cap g fl st [] [] st' ev H) as (Hc & Hr).
   split; [rewrite Hc; auto|exact Hc].
 Qed.
+
+(* ---------- only the reservation pass attaches or detaches copies ---------- *)
+Definition isS {A} (o : option A) : bool := match o with Some _ => true | None => false end.
+Definition same_shape (a b : gstate) : Prop :=
+  cap a = cap b /\ length (dats a) = length (dats b) /\ forall d i, isS (copy_at a d i) = isS (copy_at b d i).
+Lemma same_shape_refl a : same_shape a a. Proof. repeat split. Qed.
+Lemma same_shape_trans a b c : same_shape a b -> same_shape b c -> same_shape a c.
+Proof.
+  intros (A1 & A2 & A3) (B1 & B2 & B3). split; [congruence|]. split; [congruence|].
+  intros d i. now rewrite A3.
+Qed.
+
+Lemma filter_len_ext {A} (p : A -> bool) (d0 : A) : forall l1 l2, length l1 = length l2 ->
+  (forall i, (i < length l1)%nat -> p (nth i l1 d0) = p (nth i l2 d0)) -> length (filter p l1) = length (filter p l2).
+Proof.
+  induction l1 as [|x l1 IH]; intros [|y l2] Hl H; cbn [length] in Hl; try discriminate; [reflexivity|].
+  cbn [filter]. pose proof (H 0%nat ltac:(cbn; lia)) as H0. cbn [nth] in H0. rewrite H0.
+  assert (length (filter p l1) = length (filter p l2)) as IHl.
+  { apply IH; [lia|]. intros i Hi. apply (H (S i)). cbn [length]. lia. }
+  destruct (p y); cbn [length]; lia.
+Qed.
+Lemma resident_shape a b g : same_shape a b -> resident a g = resident b g.
+Proof.
+  intros (_ & Hl & Hs). rewrite !resident_eq. apply (filter_len_ext (has_on g) dflt_datum); [exact Hl|].
+  intros i _. specialize (Hs i g). unfold copy_at, get_dat in Hs. unfold has_on, isS in *. exact Hs.
+Qed.
+
+Lemma shape_upd_dev st g f : same_shape (upd_dev st g f) st. Proof. repeat split. Qed.
+Lemma shape_upd_coh st d f :
+  (forall dt i, isS (getc (copies (f dt)) i) = isS (getc (copies dt) i)) -> same_shape (upd_coh st d f) st.
+Proof.
+  intros H. split; [reflexivity|]. split.
+  - unfold upd_coh, upd_dat; cbn [dats]. apply length_upd.
+  - intros e i. unfold copy_at, upd_coh. rewrite get_dat_upd_dat.
+    destruct (Nat.eqb e d && Nat.ltb e (length (dats st))); [|reflexivity]. cbn [coh]. apply H.
+Qed.
+Lemma shape_set_val st d i v : same_shape (set_val st d i v) st.
+Proof.
+  split; [reflexivity|]. split.
+  - unfold set_val, upd_dat; cbn [dats]. apply length_upd.
+  - intros e j. now rewrite copy_at_set_val.
+Qed.
+Lemma isS_option_map {A B} (f : A -> B) o : isS (option_map f o) = isS o. Proof. destruct o; reflexivity. Qed.
+Lemma shape_upd_copy st d i f : same_shape (upd_copy st d i f) st.
+Proof. unfold upd_copy. apply shape_upd_coh. intros dt j. cbn [copies]. rewrite getc_upd_at. apply isS_option_map. Qed.
+
+Lemma start_shape dt g m i : isS (getc (copies (fst (start dt g m))) i) = isS (getc (copies dt) i).
+Proof.
+  destruct (getc (copies dt) g) as [c|] eqn:Eg.
+  - destruct (start_spec_gen dt g m c Eg) as (cs' & Hs & _ & Hg). rewrite Hs. cbn [fst copies].
+    rewrite Hg. apply isS_option_map.
+  - unfold start. now rewrite Eg.
+Qed.
+Lemma endt_shape dt g m i : isS (getc (copies (endt dt g m)) i) = isS (getc (copies dt) i).
+Proof. unfold endt; cbn [copies]. rewrite getc_upd_at. apply isS_option_map. Qed.
+Lemma setv_shape dt g v i : isS (getc (copies (setv dt g v)) i) = isS (getc (copies dt) i).
+Proof. unfold setv; cbn [copies]. rewrite getc_upd_at. apply isS_option_map. Qed.
+Lemma incv_shape dt g i : isS (getc (copies (incv dt g)) i) = isS (getc (copies dt) i).
+Proof. unfold incv; cbn [copies]. rewrite getc_upd_at. apply isS_option_map. Qed.
+Lemma transfer_shape dt g m i : isS (getc (copies (fst (transfer dt g m))) i) = isS (getc (copies dt) i).
+Proof.
+  unfold transfer. destruct (start dt g m) as [dt1 r] eqn:Es. cbn [fst].
+  rewrite endt_shape. replace dt1 with (fst (start dt g m)) by now rewrite Es. apply start_shape.
+Qed.
+
+Ltac shape_step := first
+  [ apply same_shape_refl
+  | eapply same_shape_trans; [apply shape_upd_dev|]
+  | eapply same_shape_trans; [apply shape_upd_copy|]
+  | eapply same_shape_trans; [apply shape_set_val|]
+  | eapply same_shape_trans; [apply shape_upd_coh; intros; first [apply start_shape|apply endt_shape|apply setv_shape|apply incv_shape|apply transfer_shape]|] ].
+
+Lemma shape_chop st g d : same_shape (chop st g d) st. Proof. apply shape_upd_dev. Qed.
+Lemma shape_push_lru st g d : same_shape (push_lru st g d) st. Proof. apply shape_upd_dev. Qed.
+Lemma shape_push_owned st g d : same_shape (push_owned st g d) st. Proof. apply shape_upd_dev. Qed.
+
+Lemma shape_release_reader st t d a : same_shape (release_reader st t d a) st.
+Proof.
+  unfold release_reader. destruct (copy_at st d t) as [c|]; [|apply same_shape_refl].
+  destruct ((rdr c - 1 =? 0) && a); [|apply shape_upd_copy].
+  destruct (is_owned (cst c)); (eapply same_shape_trans; [apply shape_upd_dev|]);
+    (eapply same_shape_trans; [apply shape_upd_dev|]); apply shape_upd_copy.
+Qed.
+
+Lemma shape_pick_src n : forall t st d g inver pot,
+  same_shape (snd (pick_src n t st d g inver pot)) st.
+Proof.
+  induction n as [|n IH]; intros t st d g inver pot; cbn [pick_src]; [apply same_shape_refl|].
+  destruct (Nat.eqb t g); [apply IH|].
+  destruct (copy_at st d t) as [c|]; [|apply IH].
+  destruct (negb (ver c =? inver)); [apply IH|].
+  destruct (is_invalid (cst c)); [apply IH|].
+  destruct (0 <=? rdr c); [cbn [snd]; apply shape_upd_copy|apply IH].
+Qed.
+
+Lemma shape_stage_in st g f st' s c : stage_in st g f = Some (st', s, c) -> same_shape st' st.
+Proof.
+  unfold stage_in. intros H.
+  destruct (copy_at st (fd f) g) as [ge|]; [|discriminate].
+  destruct (copy_at st (fd f) 0) as [cin|]; [|discriminate].
+  set (sta := if writes (fm f) then chop st g (fd f) else st) in *.
+  assert (Ha : same_shape sta st) by (unfold sta; destruct (writes (fm f)); [apply shape_chop|apply same_shape_refl]).
+  destruct (reads (fm f) && (xfer ge =? 1)).
+  { inversion H; subst. eapply same_shape_trans; [|exact Ha]. apply shape_upd_coh. intros. apply start_shape. }
+  destruct (if reads (fm f) && negb (writes (fm f))
+            then pick_src (pred (ndev sta (fd f))) 1 sta (fd f) g (ver cin) false
+            else (None, false, sta)) as [[sel pot] st1] eqn:Ep.
+  assert (H1 : same_shape st1 sta).
+  { destruct (reads (fm f) && negb (writes (fm f))).
+    - pose proof (shape_pick_src (pred (ndev sta (fd f))) 1 sta (fd f) g (ver cin) false) as Hp.
+      rewrite Ep in Hp. exact Hp.
+    - inversion Ep; subst. apply same_shape_refl. }
+  destruct (match sel with Some _ => false | None => pot && (is_invalid (cst cin) || (xfer cin =? 1)) end); [discriminate|].
+  destruct (copy_at st1 (fd f) (match sel with Some t => t | None => 0%nat end)) as [sc|]; [|discriminate].
+  assert (H2 : same_shape (upd_coh st1 (fd f) (fun dt => fst (start dt g (cmode (fm f))))) st1)
+    by (apply shape_upd_coh; intros; apply start_shape).
+  destruct (snd (start (coh (get_dat st1 (fd f))) g (cmode (fm f))) =? -1).
+  - inversion H; subst st' s c; clear H.
+    eapply same_shape_trans; [|eapply same_shape_trans; [exact H1|exact Ha]].
+    eapply same_shape_trans; [|exact H2].
+    destruct (writes (fm f)).
+    + shape_step. shape_step. shape_step. destruct sel; [apply shape_release_reader|apply same_shape_refl].
+    + shape_step. shape_step. destruct sel; [apply shape_release_reader|apply same_shape_refl].
+  - inversion H; subst st' s c; clear H.
+    eapply same_shape_trans; [|eapply same_shape_trans; [exact H1|exact Ha]].
+    eapply same_shape_trans; [|exact H2].
+    shape_step. shape_step. shape_step. apply same_shape_refl.
+Qed.
+
+Lemma shape_stage_all g : forall fl st srcs cps st' srcs' cps',
+  stage_all st g fl srcs cps = Some (st', srcs', cps') -> same_shape st' st.
+Proof.
+  induction fl as [|f r IH]; intros st srcs cps st' srcs' cps' H; cbn [stage_all] in H.
+  - inversion H; subst. apply same_shape_refl.
+  - destruct (stage_in st g f) as [[[st1 s] c]|] eqn:Es; [|discriminate].
+    eapply same_shape_trans; [eapply IH; exact H|]. eapply shape_stage_in; exact Es.
+Qed.
+Lemma shape_complete_push g : forall fl st srcs, same_shape (complete_push st g fl srcs) st.
+Proof.
+  induction fl as [|f r IH]; intros st srcs; cbn [complete_push]; [apply same_shape_refl|].
+  destruct srcs as [|s sr]; [apply same_shape_refl|].
+  eapply same_shape_trans; [apply IH|].
+  destruct (copy_at st (fd f) g) as [c|]; [|apply same_shape_refl].
+  destruct (xfer c =? 1); [|apply same_shape_refl].
+  destruct (Nat.eqb s 0).
+  - shape_step. shape_step. apply same_shape_refl.
+  - eapply same_shape_trans; [apply shape_release_reader|]. shape_step. shape_step. apply same_shape_refl.
+Qed.
+Lemma shape_fold_flows (F : gstate -> flow -> gstate) :
+  (forall s f, same_shape (F s f) s) -> forall fl st, same_shape (fold_left F fl st) st.
+Proof.
+  intros HF. induction fl as [|f r IH]; intros st; cbn [fold_left]; [apply same_shape_refl|].
+  eapply same_shape_trans; [apply IH|apply HF].
+Qed.
+Lemma shape_write_all st i fl v : same_shape (write_all st i fl v) st.
+Proof.
+  unfold write_all. apply shape_fold_flows. intros s f.
+  destruct (writes (fm f)); [apply shape_set_val|apply same_shape_refl].
+Qed.
+Lemma shape_run_d2h st g fl : same_shape (run_d2h st g fl) st.
+Proof.
+  unfold run_d2h. apply shape_fold_flows. intros s f.
+  destruct (writes (fm f) && fpo f); [apply shape_set_val|apply same_shape_refl].
+Qed.
+Lemma shape_pop g : forall fl st cps, same_shape (fst (pop st g fl cps)) st.
+Proof.
+  induction fl as [|f r IH]; intros st cps; cbn [pop]; [apply same_shape_refl|].
+  set (st1 := if reads (fm f) then release_reader st g (fd f) (negb (writes (fm f))) else st).
+  assert (H1 : same_shape st1 st) by (unfold st1; destruct (reads (fm f)); [apply shape_release_reader|apply same_shape_refl]).
+  destruct (writes (fm f) && fpo f).
+  - eapply same_shape_trans; [apply IH|]. eapply same_shape_trans; [apply shape_upd_copy|exact H1].
+  - eapply same_shape_trans; [apply IH|exact H1].
+Qed.
+Lemma shape_epilog g : forall fl st, same_shape (epilog st g fl) st.
+Proof.
+  induction fl as [|f r IH]; intros st; cbn [epilog]; [apply same_shape_refl|].
+  destruct (negb (writes (fm f))); [apply IH|].
+  destruct (fpo f).
+  - destruct (copy_at st (fd f) g) as [gc|]; [|apply IH].
+    eapply same_shape_trans; [apply IH|]. shape_step. shape_step. shape_step. shape_step. apply same_shape_refl.
+  - eapply same_shape_trans; [apply IH|]. apply shape_push_owned.
+Qed.
+Lemma shape_cpu_prepare st f : same_shape (cpu_prepare st f) st.
+Proof.
+  unfold cpu_prepare. destruct (writes (fm f)); [|apply same_shape_refl].
+  set (st1 := upd_coh st (fd f) (fun dt => incv dt 0)).
+  assert (H1 : same_shape st1 st) by (apply shape_upd_coh; intros; apply incv_shape).
+  destruct (1 <=? owner (coh (get_dat st1 (fd f)))); [|exact H1].
+  destruct (reads (fm f)).
+  - shape_step. shape_step. exact H1.
+  - shape_step. exact H1.
+Qed.
+Lemma shape_cpu_task st direct tid fl : same_shape (tr_st (cpu_task st direct tid fl)) st.
+Proof.
+  unfold cpu_task; cbn [tr_st]. eapply same_shape_trans; [apply shape_write_all|].
+  destruct direct; [apply same_shape_refl|]. apply shape_fold_flows. apply shape_cpu_prepare.
+Qed.
+
+Definition cap_ok (st : gstate) : Prop := forall g, (resident st g <= cap st)%nat.
+Lemma cap_ok_shape a b : same_shape a b -> cap_ok b -> cap_ok a.
+Proof. intros Hs Hb g. rewrite (resident_shape a b g Hs). destruct Hs as (Hc & _). rewrite Hc. apply Hb. Qed.
+
+Lemma reserve_cap_ok st g fl st' ev : reserve st g fl = Some (st', ev) -> cap_ok st -> cap_ok st'.
+Proof.
+  intros H Hok g'. destruct (Nat.eq_dec g' g) as [->|Hne].
+  - destruct (reserve_capacity st g fl st' ev H (Hok g)) as (Hr & _). exact Hr.
+  - unfold reserve in H.
+    destruct (reserve_from_spec st g fl st [] [] st' ev (Rinv_refl st g) H) as (HR & _).
+    assert (resident st' g' = resident st g') as ->.
+    { rewrite !resident_eq. apply (filter_len_ext (has_on g') dflt_datum); [apply (ri_len _ _ _ HR)|].
+      intros i _. pose proof (ri_other _ _ _ HR i g' Hne) as Ho. unfold copy_at, get_dat in Ho.
+      unfold has_on. now rewrite Ho. }
+    rewrite (ri_cap _ _ _ HR). apply Hok.
+Qed.
+
+Lemma dev_task_cap_ok st tid g fl tr : dev_task st tid g fl = Some tr -> cap_ok st -> cap_ok (tr_st tr).
+Proof.
+  unfold dev_task. intros H Hok.
+  destruct (reserve st g fl) as [[st1 ev]|] eqn:Er; [|discriminate].
+  destruct (stage_all st1 g fl [] []) as [[[st2 srcs] cps]|] eqn:Es; [|discriminate].
+  destruct (pop (write_all (complete_push st2 g fl srcs) g fl (fval tid (ins_of (complete_push st2 g fl srcs) g fl))) g fl cps)
+    as [st5 cps2] eqn:Ep.
+  inversion H; subst tr; clear H. cbn [tr_st].
+  apply (cap_ok_shape _ st1); [|eapply reserve_cap_ok; eassumption].
+  eapply same_shape_trans; [apply shape_epilog|].
+  eapply same_shape_trans; [apply shape_run_d2h|].
+  replace st5 with (fst (pop (write_all (complete_push st2 g fl srcs) g fl (fval tid (ins_of (complete_push st2 g fl srcs) g fl))) g fl cps))
+    by now rewrite Ep.
+  eapply same_shape_trans; [apply shape_pop|].
+  eapply same_shape_trans; [apply shape_write_all|].
+  eapply same_shape_trans; [apply shape_complete_push|].
+  eapply shape_stage_all; exact Es.
+Qed.
+Lemma run_task_cap_ok st direct tid t tr : run_task st direct tid t = Some tr -> cap_ok st -> cap_ok (tr_st tr).
+Proof.
+  unfold run_task. destruct (place t) as [|g] eqn:Ep; intros H Hok.
+  - inversion H; subst tr. eapply cap_ok_shape; [apply shape_cpu_task|exact Hok].
+  - eapply dev_task_cap_ok; eassumption.
+Qed.
+Lemma run_from_cap_ok direct : forall ts st tid, cap_ok st ->
+  forall tr, In tr (fst (run_from st direct tid ts)) -> cap_ok (tr_st tr).
+Proof.
+  induction ts as [|t r IH]; intros st tid Hok tr Hin; cbn [run_from] in Hin; [destruct Hin|].
+  destruct (run_task st direct tid t) as [tr0|] eqn:Et; [|destruct Hin].
+  pose proof (run_task_cap_ok _ _ _ _ _ Et Hok) as Hok0.
+  destruct (run_from (tr_st tr0) direct (S tid) r) as [l ok] eqn:Er. cbn [fst] in Hin.
+  destruct Hin as [<-|Hin]; [exact Hok0|].
+  apply (IH (tr_st tr0) (S tid) Hok0). now rewrite Er.
+Qed.
+
+Lemma resident_init nd ngpu c g : (1 <= g)%nat -> resident (init_state nd ngpu c) g = 0%nat.
+Proof.
+  intros Hg. rewrite resident_eq. unfold init_state; cbn [dats].
+  induction (init_vals nd) as [|v l IH]; [reflexivity|]. cbn [map filter].
+  assert (has_on g (init_datum (S ngpu) v) = false) as ->; [|exact IH].
+  unfold has_on, init_datum; cbn [coh copies]. unfold getc. destruct g; [lia|]. cbn [nth_error].
+  cbn [pred]. destruct (nth_error (repeat (@None copy) ngpu) g) as [o|] eqn:E; [|reflexivity].
+  apply nth_error_In in E. apply repeat_spec in E. now subst o.
+Qed.
+
+(* for every program, capacity and number of devices: after every task of the run, no device holds more copies
+   than its zone has tiles (device 0 is the host and is not a zone) *)
+Theorem capacity_respected nd ngpu c direct ts tr g :
+  In tr (fst (grun nd ngpu c direct ts)) -> (1 <= g)%nat -> (resident (tr_st tr) g <= c)%nat.
+Proof.
+  intros Hin Hg. unfold grun in Hin.
+  (* cap_ok quantifies over g = 0 too: restrict it to the devices *)
+  revert Hin. generalize 0%nat at 1 as tid.
+  assert (Hgen : forall ts st tid, (resident st g <= cap st)%nat -> cap st = c ->
+                 forall tr, In tr (fst (run_from st direct tid ts)) -> (resident (tr_st tr) g <= c)%nat).
+  { clear tr. induction ts0 as [|t r IH]; intros st tid Hok Hc tr Hin; cbn [run_from] in Hin; [destruct Hin|].
+    destruct (run_task st direct tid t) as [tr0|] eqn:Et; [|destruct Hin].
+    assert (Hstep : (resident (tr_st tr0) g <= cap (tr_st tr0))%nat /\ cap (tr_st tr0) = c).
+    { unfold run_task in Et. destruct (place t) as [|g0] eqn:Ep.
+      - inversion Et; subst tr0. pose proof (shape_cpu_task st direct tid (flows t)) as Hs.
+        rewrite (resident_shape _ _ g Hs). destruct Hs as (Hcc & _). rewrite Hcc. split; [exact Hok|exact Hc].
+      - unfold dev_task in Et.
+        destruct (reserve st (S g0) (flows t)) as [[st1 ev]|] eqn:Er; [|discriminate].
+        destruct (stage_all st1 (S g0) (flows t) [] []) as [[[st2 srcs] cps]|] eqn:Es; [|discriminate].
+        destruct (pop (write_all (complete_push st2 (S g0) (flows t) srcs) (S g0) (flows t)
+                        (fval tid (ins_of (complete_push st2 (S g0) (flows t) srcs) (S g0) (flows t)))) (S g0) (flows t) cps)
+          as [st5 cps2] eqn:Epop.
+        inversion Et; subst tr0; clear Et. cbn [tr_st].
+        assert (Hsh : same_shape (epilog (run_d2h st5 (S g0) (flows t)) (S g0) (flows t)) st1).
+        { eapply same_shape_trans; [apply shape_epilog|].
+          eapply same_shape_trans; [apply shape_run_d2h|].
+          replace st5 with (fst (pop (write_all (complete_push st2 (S g0) (flows t) srcs) (S g0) (flows t)
+                        (fval tid (ins_of (complete_push st2 (S g0) (flows t) srcs) (S g0) (flows t)))) (S g0) (flows t) cps))
+            by now rewrite Epop.
+          eapply same_shape_trans; [apply shape_pop|].
+          eapply same_shape_trans; [apply shape_write_all|].
+          eapply same_shape_trans; [apply shape_complete_push|].
+          eapply shape_stage_all; exact Es. }
+        rewrite (resident_shape _ _ g Hsh). destruct Hsh as (Hcc & _). rewrite Hcc.
+        destruct (Nat.eq_dec g (S g0)) as [->|Hne].
+        + destruct (reserve_capacity _ _ _ _ _ Er Hok) as (Hr & Hcap). split; [exact Hr|congruence].
+        + unfold reserve in Er.
+          destruct (reserve_from_spec st (S g0) (flows t) st [] [] st1 ev (Rinv_refl st (S g0)) Er) as (HR & _).
+          assert (resident st1 g = resident st g) as ->.
+          { rewrite !resident_eq. apply (filter_len_ext (has_on g) dflt_datum); [apply (ri_len _ _ _ HR)|].
+            intros i _. pose proof (ri_other _ _ _ HR i g Hne) as Ho. unfold copy_at, get_dat in Ho.
+            unfold has_on. now rewrite Ho. }
+          rewrite (ri_cap _ _ _ HR). split; [exact Hok|exact Hc]. }
+    destruct Hstep as (Hok0 & Hc0).
+    destruct (run_from (tr_st tr0) direct (S tid) r) as [l ok] eqn:Er. cbn [fst] in Hin.
+    destruct Hin as [<-|Hin]; [rewrite <- Hc0; exact Hok0|].
+    apply (IH (tr_st tr0) (S tid) Hok0 Hc0). now rewrite Er. }
+  intros tid Hin. apply (Hgen ts (init_state nd ngpu c) tid); [|reflexivity|exact Hin].
+  rewrite resident_init by exact Hg. lia.
+Qed.
+
+(* ---------- what a kernel reads: the memory of the source when a copy is made, its own memory otherwise ---------- *)
+Definition same_vals (a b : gstate) : Prop := forall e i, val_at a e i = val_at b e i.
+Lemma same_vals_refl a : same_vals a a. Proof. intros e i; reflexivity. Qed.
+Lemma same_vals_trans a b c : same_vals a b -> same_vals b c -> same_vals a c.
+Proof. intros H1 H2 e i. now rewrite H1. Qed.
+Lemma vals_upd_dev st g f : same_vals (upd_dev st g f) st. Proof. intros e i; reflexivity. Qed.
+Lemma vals_upd_coh st d f : same_vals (upd_coh st d f) st.
+Proof.
+  intros e i. unfold val_at, upd_coh. rewrite get_dat_upd_dat.
+  destruct (Nat.eqb e d && Nat.ltb e (length (dats st))); reflexivity.
+Qed.
+Lemma vals_upd_copy st d i f : same_vals (upd_copy st d i f) st. Proof. apply vals_upd_coh. Qed.
+Lemma vals_release_reader st t d a : same_vals (release_reader st t d a) st.
+Proof.
+  unfold release_reader. destruct (copy_at st d t) as [c|]; [|apply same_vals_refl].
+  destruct ((rdr c - 1 =? 0) && a); [|apply vals_upd_copy].
+  destruct (is_owned (cst c)); (eapply same_vals_trans; [apply vals_upd_dev|]);
+    (eapply same_vals_trans; [apply vals_upd_dev|]); apply vals_upd_copy.
+Qed.
+Lemma vals_pick_src n : forall t st d g inver pot, same_vals (snd (pick_src n t st d g inver pot)) st.
+Proof.
+  induction n as [|n IH]; intros t st d g inver pot; cbn [pick_src]; [apply same_vals_refl|].
+  destruct (Nat.eqb t g); [apply IH|].
+  destruct (copy_at st d t) as [c|]; [|apply IH].
+  destruct (negb (ver c =? inver)); [apply IH|].
+  destruct (is_invalid (cst c)); [apply IH|].
+  destruct (0 <=? rdr c); [cbn [snd]; apply vals_upd_copy|apply IH].
+Qed.
+Lemma val_at_set_val st d i v e j :
+  val_at (set_val st d i v) e j =
+  if (Nat.eqb e d && Nat.ltb e (length (dats st))) && (Nat.eqb j i && Nat.ltb j (length (vals (get_dat st d)))) then v
+  else val_at st e j.
+Proof.
+  unfold val_at, set_val. rewrite get_dat_upd_dat.
+  destruct (Nat.eqb e d && Nat.ltb e (length (dats st))) eqn:E; cbn [andb]; [|reflexivity].
+  apply andb_prop in E. destruct E as [E1 _]. apply Nat.eqb_eq in E1. subst e. cbn [vals].
+  destruct (Nat.ltb j (length (vals (get_dat st d)))) eqn:El.
+  - apply Nat.ltb_lt in El. rewrite nth_upd by exact El. rewrite andb_true_r. reflexivity.
+  - apply Nat.ltb_ge in El. rewrite nth_upd_over by exact El. rewrite andb_false_r. reflexivity.
+Qed.
+Lemma copy_at_in_range st d i c : copy_at st d i = Some c -> (d < length (dats st))%nat.
+Proof.
+  intros H. destruct (Nat.ltb d (length (dats st))) eqn:E; [now apply Nat.ltb_lt|]. apply Nat.ltb_ge in E.
+  unfold copy_at, get_dat in H. rewrite nth_overflow in H by exact E. cbn in H. unfold getc in H. destruct i; discriminate.
+Qed.
+
+(* one flow of the stage-in pass: either no copy is enqueued and no memory changes, or exactly one copy
+   (datum, source s, device g) is enqueued and the device tile receives the content of the source's memory *)
+Theorem stage_in_value st g f st' s cps : stage_in st g f = Some (st', s, cps) ->
+  (g < length (vals (get_dat st (fd f))))%nat ->
+  (cps = [] /\ same_vals st' st) \/
+  (cps = [(fd f, s, g)] /\ val_at st' (fd f) g = val_at st (fd f) s /\
+   forall e i, (e <> fd f \/ i <> g) -> val_at st' e i = val_at st e i).
+Proof.
+  unfold stage_in. intros H Hg.
+  destruct (copy_at st (fd f) g) as [ge|] eqn:Ege; [|discriminate].
+  destruct (copy_at st (fd f) 0) as [cin|]; [|discriminate].
+  pose proof (copy_at_in_range _ _ _ _ Ege) as Hd.
+  set (sta := if writes (fm f) then chop st g (fd f) else st) in *.
+  assert (Ha : same_vals sta st) by (unfold sta; destruct (writes (fm f)); [apply vals_upd_dev|apply same_vals_refl]).
+  destruct (reads (fm f) && (xfer ge =? 1)).
+  { inversion H; subst. left. split; [reflexivity|]. eapply same_vals_trans; [apply vals_upd_coh|exact Ha]. }
+  destruct (if reads (fm f) && negb (writes (fm f))
+            then pick_src (pred (ndev sta (fd f))) 1 sta (fd f) g (ver cin) false
+            else (None, false, sta)) as [[sel pot] st1] eqn:Ep.
+  assert (H1 : same_vals st1 sta).
+  { destruct (reads (fm f) && negb (writes (fm f))).
+    - pose proof (vals_pick_src (pred (ndev sta (fd f))) 1 sta (fd f) g (ver cin) false) as Hp.
+      rewrite Ep in Hp. exact Hp.
+    - inversion Ep; subst. apply same_vals_refl. }
+  destruct (match sel with Some _ => false | None => pot && (is_invalid (cst cin) || (xfer cin =? 1)) end); [discriminate|].
+  destruct (copy_at st1 (fd f) (match sel with Some t => t | None => 0%nat end)) as [sc|]; [|discriminate].
+  set (st2 := upd_coh st1 (fd f) (fun dt => fst (start dt g (cmode (fm f))))) in *.
+  assert (H2 : same_vals st2 st) by (eapply same_vals_trans; [apply vals_upd_coh|eapply same_vals_trans; [exact H1|exact Ha]]).
+  destruct (snd (start (coh (get_dat st1 (fd f))) g (cmode (fm f))) =? -1).
+  - inversion H; subst st' s cps; clear H. left. split; [reflexivity|].
+    eapply same_vals_trans; [|exact H2].
+    destruct (writes (fm f)).
+    + eapply same_vals_trans; [apply vals_upd_coh|]. eapply same_vals_trans; [apply vals_upd_coh|].
+      eapply same_vals_trans; [apply vals_upd_copy|]. destruct sel; [apply vals_release_reader|apply same_vals_refl].
+    + eapply same_vals_trans; [apply vals_upd_coh|]. eapply same_vals_trans; [apply vals_upd_copy|].
+      destruct sel; [apply vals_release_reader|apply same_vals_refl].
+  - inversion H; subst st' s cps; clear H. right. split; [reflexivity|].
+    set (st4 := upd_copy (upd_coh st2 (fd f) (fun dt => setv dt g (if writes (fm f) then ver sc + 1 else ver sc))) (fd f) g
+                         (fun c => set_xfer c 1)) in *.
+    assert (H4 : same_vals st4 st).
+    { eapply same_vals_trans; [apply vals_upd_copy|]. eapply same_vals_trans; [apply vals_upd_coh|exact H2]. }
+    assert (Hlen : length (dats st4) = length (dats st)).
+    { unfold st4, upd_copy, upd_coh, upd_dat; cbn [dats]. rewrite !length_upd.
+      unfold st2, upd_coh, upd_dat; cbn [dats]. rewrite length_upd.
+      assert (length (dats st1) = length (dats sta)) as ->.
+      { destruct (reads (fm f) && negb (writes (fm f))).
+        - pose proof (shape_pick_src (pred (ndev sta (fd f))) 1 sta (fd f) g (ver cin) false) as Hp.
+          rewrite Ep in Hp. cbn [snd] in Hp. destruct Hp as (_ & Hl & _). exact Hl.
+        - inversion Ep; subst. reflexivity. }
+      unfold sta. destruct (writes (fm f)); reflexivity. }
+    assert (Hvl : length (vals (get_dat st4 (fd f))) = length (vals (get_dat st (fd f)))).
+    { (* the vals of a datum are only changed by set_val *)
+      assert (Hv : forall a b, same_vals a b -> length (dats a) = length (dats b) -> True) by auto.
+      clear Hv.
+      assert (Hsame : forall a d0 ff, vals (get_dat (upd_coh a d0 ff) (fd f)) = vals (get_dat a (fd f))).
+      { intros a d0 ff. unfold upd_coh. rewrite get_dat_upd_dat.
+        destruct (Nat.eqb (fd f) d0 && Nat.ltb (fd f) (length (dats a))); reflexivity. }
+      unfold st4, upd_copy. rewrite !Hsame. unfold st2. rewrite Hsame.
+      assert (vals (get_dat st1 (fd f)) = vals (get_dat sta (fd f))) as ->.
+      { destruct (reads (fm f) && negb (writes (fm f))).
+        - clear -Ep Hsame. revert Ep. generalize (pred (ndev sta (fd f))) as n. generalize 1%nat as t.
+          generalize false as p0. revert st1 sel pot.
+          assert (Hgen : forall n t a p0, vals (get_dat (snd (pick_src n t a (fd f) g (ver cin) p0)) (fd f)) = vals (get_dat a (fd f))).
+          { induction n as [|n IH]; intros t a p0; cbn [pick_src]; [reflexivity|].
+            destruct (Nat.eqb t g); [apply IH|].
+            destruct (copy_at a (fd f) t) as [c|]; [|apply IH].
+            destruct (negb (ver c =? ver cin)); [apply IH|].
+            destruct (is_invalid (cst c)); [apply IH|].
+            destruct (0 <=? rdr c); [cbn [snd]; unfold upd_copy; apply Hsame|apply IH]. }
+          intros st1 sel pot p0 t n Ep. specialize (Hgen n t sta p0). rewrite Ep in Hgen. exact Hgen.
+        - inversion Ep; subst. reflexivity. }
+      unfold sta. destruct (writes (fm f)); reflexivity. }
+    split.
+    + rewrite val_at_set_val. rewrite !Nat.eqb_refl. rewrite Hlen, Hvl.
+      apply Nat.ltb_lt in Hd, Hg. rewrite Hd, Hg. cbn [andb]. apply H4.
+    + intros e i Hne. rewrite val_at_set_val.
+      destruct Hne as [Hne|Hne]; apply Nat.eqb_neq in Hne; rewrite Hne; cbn [andb]; rewrite ?andb_false_r; apply H4.
+Qed.
